@@ -14,11 +14,12 @@ import (
 
 	kv "github.com/XiXi-2024/xixi-kv"
 	"github.com/XiXi-2024/xixi-kv/index"
-	"github.com/bwmarrin/snowflake"
 	"github.com/XiXi-2024/xixi-kv/verifrt/iorec"
 	"github.com/XiXi-2024/xixi-kv/verifrt/sched"
+	"github.com/XiXi-2024/xixi-kv/verifrt/vmmap"
 	"github.com/XiXi-2024/xixi-kv/verifrt/vsync"
 	"github.com/XiXi-2024/xixi-kv/verifrt/vtime"
+	"github.com/bwmarrin/snowflake"
 )
 
 func stack() string { return string(debug.Stack()) }
@@ -151,7 +152,11 @@ func beginExecution() {
 	vsync.NewGeneration()
 	iorec.Reset()
 	sched.SetMode(sched.ModeSeq)
+	leakedMappings += vmmap.ReleaseAll()
 }
+
+// mappings abandoned by earlier executions of this process (released at the start of the next one)
+var leakedMappings int
 
 // Open opens the database with the world's configuration (or another one).
 func (w *World) Open() error { return w.OpenWith(w.Cfg) }
